@@ -523,6 +523,15 @@ func ssGenChurn(rnd *rand.Rand, closeAll bool) []ssStep {
 		case "dir":
 			h = add(ssStep{Op: "opendir", P1: "d"})
 		}
+		// requests that do not fit the kind of the (live) handle, right after the open — for a directory
+		// handle while its listing still has every entry: READ on a directory handle, READDIR on a file
+		// handle, WRITE on a read-only and READ on a write-only handle; once each, and once pipelined.  The
+		// handle must stay open and keep working.
+		wrong := map[string][]string{"r": {"write", "readdir"}, "w": {"read", "readdir"}, "rw": {"readdir"}, "dir": {"read", "write"}}[kind]
+		for _, op := range wrong {
+			add(ssStep{Op: op, H: h, Off: uint64(rnd.Intn(8)), Len: uint32(1 + rnd.Intn(8))})
+		}
+		add(ssStep{Op: wrong[rnd.Intn(len(wrong))], H: h, Len: 3, Burst: 4})
 		use := func(n int, burst int) {
 			for x := 0; x < n; x++ {
 				op := map[string]string{"r": "read", "w": "write", "dir": "readdir"}[kind]
